@@ -57,6 +57,10 @@ KINDS = {
                               "required": ["a", "leaf"]},
     "struct_flat": {"type": "object", "properties": {"a": {"type": "integer"}}, "required": ["a"],
                     "additionalProperties": {"type": "string"}},
+    "struct_renamed_flat": {"type": "object", "properties": {"displayName": {"type": "string"}, "a": {"type": "integer"}},
+                            "required": ["a"], "additionalProperties": {"type": "integer"}},
+    "struct_renamed_flat_str": {"type": "object", "properties": {"displayName": {"type": "string"}, "a-b": {"type": "string"}},
+                                "additionalProperties": {"type": "string"}},
     "struct_ref": {"$ref": "#/definitions/Leaf"},
     "enum_ref": {"$ref": "#/definitions/Color"},
     "external": {"oneOf": [{"type": "string", "enum": ["Unit"]},
@@ -103,6 +107,8 @@ HAND_VALUES = {
     "tuple2": [[3, "s"]], "tuple1": [[3]], "tuple3": [[True, "dark-green", 1.5]], "array3": [[1, 2, 3], [0, 0, 0]],
     "struct": [{"a": 1}, {"a": 2, "b": "x"}], "struct_closed": [{"a": 1}], "struct_nested_default": [{"a": 1, "leaf": {"v": 2}}],
     "struct_flat": [{"a": 1}, {"a": 1, "more": "x", "yet": "y"}], "struct_ref": [{"v": 9}, {"v": 9, "s": "given"}],
+    "struct_renamed_flat": [{"a": 1, "displayName": "anon"}, {"a": 1, "displayName": "anon", "more": 5}],
+    "struct_renamed_flat_str": [{"displayName": "anon", "a-b": "c"}, {"displayName": "anon", "zz": "y"}],
     "enum_ref": ["Blue"], "external": ["Unit", {"N": 5}, {"S": {"x": 1}}, {"S": {"x": 1, "y": "z"}}, {"T": [1, True]}],
     "internal": [{"t": "A", "x": 3}, {"t": "B"}], "adjacent": [{"t": "A", "c": 4}, {"t": "B", "c": ["q"]}, {"t": "U"}],
     "untagged": [5, "five", {"k": True}], "boxed": [{"n": 1}, {"n": 1, "kid": {"n": 2}}], "unit": [None],
@@ -118,7 +124,8 @@ BAD_VALUES = {   # violations of represented constraints (or of the integer rang
     "tuple2": [[3], [3, "s", 1], ["s", 3], 3], "tuple1": [[], [1, 2], 3], "tuple3": [[True, "purple", 1.5]],
     "array3": [[1, 2], [1, 2, 3, 4], [1, 2, 300]], "struct": [{}, {"a": "x"}, {"b": "x"}, 5, []],
     "struct_closed": [{"a": 1, "zz": 2}], "struct_nested_default": [{"a": 1}, {"a": 1, "leaf": {}}],
-    "struct_flat": [{"a": 1, "more": 5}], "struct_ref": [{"s": "only"}], "enum_ref": ["blue"],
+    "struct_flat": [{"a": 1, "more": 5}], "struct_renamed_flat": [{"a": 1, "more": "x"}, {"displayName": "anon"}],
+    "struct_renamed_flat_str": [{"displayName": 5}], "struct_ref": [{"s": "only"}], "enum_ref": ["blue"],
     "external": ["Nope", {"N": "x"}, {"S": {}}, {"T": [1]}, {"N": 1, "S": {"x": 1}}],
     "internal": [{"t": "C"}, {"t": "A"}, {"x": 3}], "adjacent": [{"t": "A"}, {"t": "A", "c": "x"}, {"t": "Z", "c": 1}],
     "untagged": [1.5, None, {"k": 1}], "boxed": [{"kid": {"n": 1}}, {"n": 1, "kid": {}}], "unit": [0, "null"],
